@@ -124,6 +124,35 @@ func streamC16(c *Ctx) {
 			c.Violation(&Replay{Stream: "sat", Case: []interface{}{J{"k": "sat", "crit": J{"exists": hx(f)}, "doc": encDoc(docM)}}, Note: "Exists must mean 'the field is present' and NotExists its negation"})
 			return
 		}
+		// the named builders are the criteria they abbreviate, on documents holding each of the values they mention
+		for _, fv := range []interface{}{"keep", true, false, nil, int64(1)} {
+			dv := doc
+			if fv != "keep" {
+				dv = doc.Copy()
+				dv.Set(f, fv)
+			}
+			sat := func(cr query.Criteria) bool { r, _ := safeSatisfy(cr, dv); return r }
+			fld := query.Field(f)
+			bad := ""
+			switch {
+			case sat(fld.IsTrue()) != sat(fld.Eq(true)):
+				bad = "IsTrue is not Eq(true)"
+			case sat(fld.IsFalse()) != sat(fld.Eq(false)):
+				bad = "IsFalse is not Eq(false)"
+			case sat(fld.IsNil()) != sat(fld.Eq(nil)):
+				bad = "IsNil is not Eq(nil)"
+			case sat(fld.IsNilOrNotExists()) != (sat(fld.Eq(nil)) || !dv.Has(f)):
+				bad = "IsNilOrNotExists is not IsNil Or NotExists"
+			case sat(fld.IsTrue()) != (dv.Has(f) && dv.Get(f) == true):
+				bad = "IsTrue does not hold exactly on documents whose field is true"
+			case sat(fld.IsFalse()) != (dv.Has(f) && dv.Get(f) == false):
+				bad = "IsFalse does not hold exactly on documents whose field is false"
+			}
+			if bad != "" {
+				c.Violation(&Replay{Stream: "sat", Case: []interface{}{J{"k": "sat", "crit": J{"exists": hx(f)}, "doc": encDoc(dv.AsMap())}}, Note: bad})
+				return
+			}
+		}
 		eq, _ := safeSatisfy(query.Field(f).Eq(v), doc)
 		neq, _ := safeSatisfy(query.Field(f).Neq(v), doc)
 		if eq == neq {
